@@ -18,8 +18,8 @@ MANIFEST = {
 
 INVARIANTS = ["C41_Uncommitted", "C41_NotDispatched", "C01_User", "C06_Batch", "C06_Counts"]
 PROPERTIES = []
-QUICK = ["grp2", "upd2"]
-THOROUGH = ["grp2", "upd2", "clean"]
+QUICK = ['grp2', 'upd2']
+THOROUGH = ['grp2', 'upd2', 'clean']
 FINDINGS = [("uncchild", "upd2", ["C41_Uncommitted"]), ("ooc", "upd2", ["C41_NotDispatched"])]
 
 
